@@ -21,6 +21,132 @@ theorem list_rt {α β : Type} (f : α → β) (g : β → α) (l : List α) (h 
     simp only [List.map_cons]
     rw [h a (by simp), ih (fun x hx => h x (List.mem_cons_of_mem _ hx))]
 
+/-! ### The binary form of addresses -/
+
+/-- Reading back the binary form of an address returns the address — zero value, both lengths, the
+zone included. -/
+theorem addr_rt (a : Addr) (h : a.WF) : Addr.unmarshal a.marshal = some a := by
+  cases a with
+  | zero => rfl
+  | v4 b =>
+    have hb : b.length = 4 := h
+    simp [Addr.unmarshal, Addr.marshal, hb]
+  | v6 b z =>
+    have hb : b.length = 16 := h
+    cases z with
+    | nil => simp [Addr.unmarshal, Addr.marshal, hb]
+    | cons x r =>
+      have h1 : (b ++ x :: r).length = 16 + (r.length + 1) := by simp [hb]
+      have h2 : ¬ (16 + (r.length + 1) = 0) := by omega
+      have h3 : ¬ (16 + (r.length + 1) = 4) := by omega
+      have h4 : ¬ (16 + (r.length + 1) = 16) := by omega
+      have h5 : 16 < 16 + (r.length + 1) := by omega
+      have h6 : (b ++ x :: r).take 16 = b := by
+        rw [← hb]; exact List.take_left
+      have h7 : (b ++ x :: r).drop 16 = x :: r := by
+        rw [← hb]; exact List.drop_left
+      simp only [Addr.unmarshal, Addr.marshal, h1, h2, h3, h4, h5, h6, h7, if_true, if_false]
+
+/-- Whatever `UnmarshalBinary` accepts is a well-formed address. -/
+theorem unmarshal_wf (b : List Nat) (a : Addr) (h : Addr.unmarshal b = some a) : a.WF := by
+  unfold Addr.unmarshal at h
+  split at h
+  · cases h; trivial
+  · split at h
+    · cases h; assumption
+    · split at h
+      · cases h; assumption
+      · split at h
+        · cases h
+          show (b.take 16).length = 16
+          rw [List.length_take]; omega
+        · cases h
+
+/-- … and its binary form is the input: the decoder has exactly one input per address. -/
+theorem marshal_unmarshal (b : List Nat) (a : Addr) (h : Addr.unmarshal b = some a) : a.marshal = b := by
+  unfold Addr.unmarshal at h
+  split at h
+  · cases h
+    rename_i h0
+    exact (List.eq_nil_of_length_eq_zero h0).symm
+  · split at h
+    · cases h; rfl
+    · split at h
+      · cases h; simp [Addr.marshal]
+      · split at h
+        · cases h; simp [Addr.marshal]
+        · cases h
+
+/-- Two well-formed addresses with the same binary form are the same address: keys that differ in
+memory (in the zone only, in the address family only) differ in the cache file. -/
+theorem marshal_inj (a b : Addr) (ha : a.WF) (hb : b.WF) (h : a.marshal = b.marshal) : a = b := by
+  have h1 := addr_rt a ha
+  rw [h, addr_rt b hb] at h1
+  exact (Option.some.inj h1).symm
+
+/-- An address as `backendpb` produces it: the result of `UnmarshalBinary` on some wire bytes
+(`DeviceSettings.toInternal`, `ByteSlicesToIPs`, `BlockingModeCustomIP.toInternal`). -/
+def FromWire (a : Addr) : Prop := ∃ b, Addr.unmarshal b = some a
+
+theorem fromWire_wf (a : Addr) (h : FromWire a) : a.WF := by
+  obtain ⟨b, hb⟩ := h
+  exact unmarshal_wf b a hb
+
+theorem addrs_rt (l : List Addr) (h : ∀ a ∈ l, a.WF) : addrsFromPb (addrsToPb l) = some l := by
+  induction l with
+  | nil => rfl
+  | cons a r ih =>
+    have ha := addr_rt a (h a (by simp))
+    have hr := ih (fun x hx => h x (List.mem_cons_of_mem _ hx))
+    simp only [addrsToPb, List.map_cons, addrsFromPb] at hr ⊢
+    rw [ha, hr]
+
+theorem addrs_wf (bs : List (List Nat)) : ∀ (l : List Addr), addrsFromPb bs = some l → ∀ a ∈ l, a.WF := by
+  induction bs with
+  | nil =>
+    intro l h a ha
+    simp [addrsFromPb] at h
+    subst h
+    simp at ha
+  | cons b r ih =>
+    intro l h a ha
+    simp only [addrsFromPb] at h
+    cases hu : Addr.unmarshal b with
+    | none => simp [hu] at h
+    | some x =>
+      cases hr : addrsFromPb r with
+      | none => simp [hu, hr] at h
+      | some xs =>
+        simp [hu, hr] at h
+        subst h
+        rcases List.mem_cons.mp ha with rfl | hm
+        · exact unmarshal_wf b _ hu
+        · exact ih xs hr a hm
+
+theorem optAll_rt {α β : Type} (f : α → β) (g : β → Option α) (l : List α)
+    (h : ∀ x ∈ l, g (f x) = some x) : optAll ((l.map f).map g) = some l := by
+  induction l with
+  | nil => rfl
+  | cons a r ih =>
+    have ha := h a (by simp)
+    have hr := ih (fun x hx => h x (List.mem_cons_of_mem _ hx))
+    simp only [List.map_cons, optAll]
+    rw [ha, hr]
+
+/-- Well-formed addresses in a blocking mode. -/
+def BmWF : BlockingMode → Prop
+  | .customIP v4 v6 => (∀ a ∈ v4, a.WF) ∧ (∀ a ∈ v6, a.WF)
+  | _ => True
+
+theorem bm_rt (m : BlockingMode) (h : BmWF m) : bmFromPb (bmToPb m) = some m := by
+  cases m with
+  | customIP v4 v6 =>
+    obtain ⟨h4, h6⟩ := h
+    simp only [bmToPb, bmFromPb, addrs_rt v4 h4, addrs_rt v6 h6]
+  | nxdomain => rfl
+  | nullIP => rfl
+  | refused => rfl
+
 theorem auth_rt (a : Auth) (h : CanonAuth a) : authFromPb (authToPb a) = a := by
   obtain ⟨en, doh, pw⟩ := a
   obtain ⟨h1, h2⟩ := h
@@ -49,14 +175,15 @@ theorem duration_rt (d : Int) : durationFromPb (durationToPb d) = d := by
   simp only [durationFromPb, durationToPb]
   omega
 
-theorem device_rt (d : Device) (h : CanonAuth d.auth) : deviceFromPb (deviceToPb d) = d := by
+theorem device_rt (d : Device) (h : CanonAuth d.auth) (hl : d.linked.WF) (hd : ∀ a ∈ d.dedicated, a.WF) :
+    deviceFromPb (deviceToPb d) = some d := by
   obtain ⟨a, id, l, n, hu, de, f⟩ := d
-  simp [deviceFromPb, deviceToPb, auth_rt a h]
+  simp only [deviceFromPb, deviceToPb, addr_rt l hl, addrs_rt de hd, auth_rt a h]
 
-theorem profile_rt (p : Profile) : profileFromPb (profileToPb p) = p := by
+theorem profile_rt (p : Profile) (h : BmWF p.blockingMode) : profileFromPb (profileToPb p) = some p := by
   cases p
-  simp [profileFromPb, profileToPb, ratelimiter_rt, duration_rt,
-    opt_rt scheduleToPb scheduleFromPb schedule_rt]
+  simp only [profileFromPb, profileToPb, bm_rt _ h]
+  simp [ratelimiter_rt, duration_rt, opt_rt scheduleToPb scheduleFromPb schedule_rt]
 
 /-! ### Write-then-rename -/
 
